@@ -31,5 +31,7 @@ def check(run):
     run.gen("Gen_C08", consts={"Part": "listed"})
     # serialisations kept by the caller while other values are serialised; caller's input buffers stay untouched (Read/Twins events)
     common.gen_structs(run, fams1=("ident",), fams2=("serchain", "lease", "sig", "offsig"))
+    # a struct copy of a parsed value, edited through an exported field and serialised: the original and its input buffer do not notice
+    run.gen("Gen_WarmEdit", consts={"Part": "all"}, tag="Gen_WarmEdit_all")
     run.replay_and_judge()
     return vlib.finish(run, "model_checking", RULE, ASSUME)
